@@ -18,6 +18,8 @@ case "$FLAV" in
   verif) CC=gcc;   FLAGS="-O1 -DJLS_VERIF=1" ;;
   asan)  CC=clang; FLAGS="-O1 -fsanitize=address,undefined -fno-sanitize-recover=undefined -fno-sanitize=alignment -DJLS_VERIF=1" ;;
   crcsw) CC=gcc;   FLAGS="-O1 -DJLS_OPTIMIZE_CRC_DISABLE=1"; SRCS="crc32c" ;;
+  so)    CC=gcc;   FLAGS="-O1 -fPIC" ;;
+  sov)   CC=gcc;   FLAGS="-O1 -fPIC -DJLS_VERIF=1" ;;
   *) echo "unknown flavour $FLAV" >&2; exit 2 ;;
 esac
 pids=()
@@ -30,6 +32,13 @@ for p in "${pids[@]}"; do wait $p || rc=1; done
 [ $rc -eq 0 ] || { echo "build failed ($FLAV)" >&2; exit 2; }
 if [ "$FLAV" = crcsw ]; then
   objcopy --redefine-sym jls_crc32c=jls_crc32c_sw --redefine-sym jls_crc32c_hdr=jls_crc32c_hdr_sw "$OUT/crc32c.o"
+fi
+if [ "$FLAV" = so ] || [ "$FLAV" = sov ]; then
+  gcc -O1 -g -fPIC -c /verif/harness/iowrap.c -o "$OUT/iowrap.o" || exit 2
+  gcc -shared -o "$OUT/libjlsv.so" "$OUT"/*.o \
+     -Wl,--wrap=open -Wl,--wrap=close -Wl,--wrap=write -Wl,--wrap=read -Wl,--wrap=lseek \
+     -Wl,--wrap=ftruncate -Wl,--wrap=fsync -lm -lpthread || exit 2
+  rm -f "$OUT/iowrap.o"
 fi
 rm -f "$OUT/libjls.a"
 ar rcs "$OUT/libjls.a" "$OUT"/*.o
